@@ -166,6 +166,10 @@ Inductive instr :=
 | ISideWrite (c : N) (cs : list chunk)
 | ISideFlush (c : N)
 | ISideRemove (c : N)                             (* the cache file is lost (external) *)
+| ITmpCreate (c : N)                              (* rebuild: File::create(<sidecar>.tmp); the temporary file is not part of *)
+| ITmpWrite (c : N) (cs : list chunk)             (* the modelled state: nothing reads it, a crash leaves it behind,          *)
+| ITmpFlush (c : N)                               (* the next rebuild truncates it                                            *)
+| ISideRename (c : N) (whole : list chunk)        (* fs::rename(tmp, sidecar): the sidecar becomes the whole rewritten file   *)
 | ISetNext (k n : N)
 | IIdxMem (dflt : option N) (add : option N)
 | IIdxTmp                                         (* fs::write(index.json.tmp, payload) *)
@@ -208,6 +212,8 @@ Definition exec (s : st) (i : instr) : st :=
   | ISideWrite c cs => let r := bw_write (side_of s c) (sw s) cs (clen cs) in upd_sides s (put c (fst r) (sides s)) (snd r)
   | ISideFlush c => let r := bw_flush (side_of s c) (sw s) in upd_sides s (put c (fst r) (sides s)) (snd r)
   | ISideRemove c => upd_sides s (del c (sides s)) (sw s)
+  | ITmpCreate _ | ITmpWrite _ _ | ITmpFlush _ => s
+  | ISideRename c whole => upd_sides s (put c whole (sides s)) (sw s)
   | ISetNext k n => upd_nexts s (put k n (nexts s))
   | IIdxMem d a =>
     upd_idx s (idx s) (idx_tmp s)
@@ -262,8 +268,15 @@ Definition write_blob (a : N) : list instr := [IPt 54; IArtTmp a; IPt 55; IArtRe
 
 Definition mkf (sid seq fid len : N) (art : option N) : frame := {| f_sid := sid; f_seq := seq; f_fid := fid; f_len := len; f_art := art |}.
 
-(* rebuild_best_effort: File::create, then every line (two writes each) through one BufWriter, flush at the end *)
+(* rebuild_best_effort (since the S3-live repair): the lines go to a temporary file (File::create, two writes per line
+   through one BufWriter, flush at the end) which is then renamed over the sidecar: at every crash point the sidecar is
+   the file as it was or the whole new file.  `rebuild_in_place` is the function before the repair: File::create on the
+   sidecar itself (truncate), so a crash - or a concurrent reader - found any prefix of the rewrite. *)
 Definition rebuild (c : N) (evs : list frame) : list instr :=
+  [ITmpCreate c; IPt 61]
+  ++ flat_map (fun f => [ITmpWrite c [Body f]; IPt 62; ITmpWrite c [NL]; IPt 63]) evs
+  ++ [ITmpFlush c; IPt 64; ISideRename c (flat_map (fun f => [Body f; NL]) evs)].
+Definition rebuild_in_place (c : N) (evs : list frame) : list instr :=
   [ISideCreate c; IPt 61]
   ++ flat_map (fun f => [ISideWrite c [Body f]; IPt 62; ISideWrite c [NL]; IPt 63]) evs
   ++ [ISideFlush c; IPt 64].
@@ -555,6 +568,7 @@ Definition instr_code (i : instr) : list N :=
   | ISideOpen _ => [103] | ISideWrite _ _ => [104] | ISideFlush _ => [105]
   | ISetNext _ _ => [106] | IIdxMem _ _ => [107] | IIdxTmp => [108] | IIdxRename => [109] | IIdxRemove => [114]
   | IArtTmp _ => [110] | IArtRename _ => [111] | ISideCreate _ => [112] | ISideRemove _ => [113]
+  | ITmpCreate _ => [115] | ITmpWrite _ _ => [116] | ITmpFlush _ => [117] | ISideRename _ _ => [118]
   | IAck _ | IOk => []
   end.
 Definition skel (is : list instr) : list N := flat_map instr_code is.
